@@ -425,7 +425,7 @@ func (r *Reconciler) Reconcile(ctx context.Context, req reconcile.Request) (reco
 	// Check to see if there are revisions eligible for garbage collection.
 	if p.GetRevisionHistoryLimit() != nil &&
 		*p.GetRevisionHistoryLimit() != 0 &&
-		len(revisions) > (int(*p.GetRevisionHistoryLimit())+1) &&
+		int64(len(revisions))-1 > *p.GetRevisionHistoryLimit() &&
 		oldestRevisionIndex >= 0 {
 		gcRev := revisions[oldestRevisionIndex]
 		// Find the oldest revision and delete it.
